@@ -3,6 +3,7 @@ package dsim
 import (
 	"encoding/binary"
 	"fmt"
+	"sort"
 	"time"
 
 	"github.com/aptpod/iscp-go/message"
@@ -776,6 +777,19 @@ func (d *bDown) AliasOfData(id message.DataID) uint32 {
 		}
 	}
 	return best
+}
+
+// AliasesOfData returns every alias the client announced for id on d, ascending (an id that the
+// application pre-registered twice has two).
+func (d *bDown) AliasesOfData(id message.DataID) []uint32 {
+	var out []uint32
+	for a, v := range d.dataAlias {
+		if v == id {
+			out = append(out, a)
+		}
+	}
+	sort.Slice(out, func(i, j int) bool { return out[i] < out[j] })
+	return out
 }
 
 func (d *bDown) HasUpAlias(info message.UpstreamInfo) bool {
